@@ -9,7 +9,8 @@ Import ListNotations.
 Require Import RV.Lib.PyStr RV.Model.Path RV.Model.Rights RV.Model.Regex RV.Model.RegexLang RV.Model.FromFile.
 Require Import RV.Proofs.PathProofs RV.Proofs.RightsProofs RV.Proofs.RightsIntersect RV.Proofs.RightsVerifyProofs RV.Proofs.RegexMatchProofs RV.Proofs.RegexEscapeProofs
                RV.Proofs.RegexFuelProofs RV.Proofs.FromFileProofs RV.Proofs.C04Final.
-Require RV.Gen.PathGen RV.Gen.RightsGen RV.Gen.RightsVerifyGen.
+Require Import RV.Proofs.GenEqRightsPure.
+Require RV.Gen.PathGen RV.Gen.RightsGen RV.Gen.RightsVerifyGen RV.Gen.RightsPureGen.
 Open Scope list_scope. Open Scope N_scope.
 
 (* ================================================================== the three simple back-ends *)
@@ -122,6 +123,17 @@ Theorem C04_no_foreign_home_auth : forall t u o rest tr, t <> str "none" -> Fora
   RightsGen.authorization_owner_only (RightsVerifyGen.verify_user t) u (render (o :: rest) ++ tr) = [].
 Proof. exact c04_no_foreign_home_auth. Qed.
 Print Assumptions C04_no_foreign_home_auth.
+
+(* The back-end instance is shared by all request threads.  `authorization` of every built-in back-end (base class,
+   authenticated, owner_only, owner_write, from_file) and everything it calls inside the rights package writes
+   nothing to `self`, to globals or to shared objects (effect list REGENERATED from the source by t_c04pure.py):
+   the back-ends are functions of (configuration, user, path), as the models above and below assume, so no
+   interleaving of two requests can make one user's call be evaluated with another user's data. *)
+Theorem C04_authorization_pure :
+  RightsPureGen.authorization_effects = []
+  /\ forallb (fun f => existsb (String.eqb f) RightsPureGen.scanned) expected_scanned = true.
+Proof. exact (conj Gen_rights_authorization_pure Gen_rights_scanned_all). Qed.
+Print Assumptions C04_authorization_pure.
 
 (* rights.intersect (used to combine the permissions of a collection and of its parent): exactly the letters
    present in both *)
